@@ -3805,9 +3805,14 @@ impl Lexer<'_> {
         // Start the new token
         self.start_token();
 
-        // Consume the ending
-        #[allow(clippy::cast_possible_truncation)]
-        self.cursor.advance_by(ending_len as u32);
+        // Consume the ending. If the datalines are not properly terminated,
+        // there may be fewer terminator characters left than expected,
+        // so make sure nothing but the semicolons is consumed
+        for _ in 0..ending_len {
+            if !self.cursor.eat_char(';') {
+                break;
+            }
+        }
 
         // Add the datalines end token
         self.emit_token(TokenChannel::DEFAULT, TokenType::SEMI, Payload::None);
